@@ -343,6 +343,22 @@ def rule_cache_commit(ctx, rule='C12.CACHE'):
               whyl + ': level and length then describe different prefixes (a concurrent, longer extension committed first)',
               loc=ctx.loc(ext, lens[0]))
     n += 1
+    # an extension only ever grows the cache: a commit that does not exceed the current length is dropped.  Overlapping
+    # requests extend to different lengths; the shorter one committing last would shrink the cache under the longer one,
+    # whose _level_for() then slices a level that is too short (no truncation happened, so nothing is redone)
+    grows = False
+    for t_, b_, _p in pr.control_conditions(lens[0], ext.node):
+        for cj in (pr.conjuncts(t_) if b_ else []):
+            if q.cmp_matches(ctx, ext, cj, f'{L} > self.length'):
+                grows = True
+    locked = any(isinstance(p_, ast.With) and any(ctx.res.canon(i.context_expr, ext) == 'self.lock' for i in p_.items)
+                 for p_, _f in q.enclosing_chain(lens[0], ext.node))
+    ctx.check(grows and locked, rule, ctx.key(ext, lens[0], 'commit only grows the cache'),
+              'the commit is made only when it exceeds the current length (tested under the lock)',
+              'the commit is not conditional on `length > self.length`: of two overlapping extensions the shorter one, committing '
+              'last, shrinks the cache under the request that relies on the greater length - its branch folds to a wrong root',
+              loc=ctx.loc(ext, lens[0]))
+    n += 1
     # the slice start of the level write corresponds to the start of the range read
     sl = lvls[0].targets[0].slice
     oks = isinstance(sl, ast.Slice) and sl.upper is None and sl.lower is not None and \
